@@ -127,32 +127,70 @@ def operand_literal(t, b):
     return "(%s)%s" % (CT[t], lit)
 
 
-def context(i, c):
-    """how case i is embedded in the program: operands from memory, as literals in a run-time expression,
-    or as literals in a static initializer (translation-time evaluation)"""
+def vsel(c):
+    """variant selector: a stable hash of the case coordinates (not the running case number, which depends on
+    the subsample), so that the quick tier replays a case in the same embedding as the thorough tier"""
+    return zlib.crc32(case_key(c).encode())
+
+
+def modes(c):
+    """the embeddings available for a case: {mode: (x literal, y literal)}"""
     f = c["f"]
-    if f in ("arith", "neg", "mixed", "conv", "cmp", "truth") and c["op"] not in ("inc", "dec", "if") \
+    out = {"memory": (None, None)}
+    if f in ("arith", "neg", "mixed", "conv", "cmp", "truth", "d2l", "d2r") \
+            and c["op"] not in ("inc", "dec", "postinc", "postdec", "if") \
             and not (f == "mixed" and c["op"] == "cond"):
         xl = operand_literal(c["at"], c["xb"])
         yl = operand_literal(c["bt"], c["yb"]) if c["yb"] else ""
-        m = i % (5 if f == "conv" else 6)
+        if f in ("d2l", "d2r") and xl is not None and yl is not None:
+            zl = operand_literal(c["at"], c["zb"])
+            inner = "(%s %s %s)" % (xl, OPS[c["op"]], yl)
+            xl, yl = (inner, zl) if f == "d2l" else (zl, inner)      # the rendered expression is xl op2 yl
         if xl is not None and yl is not None:
-            if f == "conv" and m == 4:
-                return "static", xl, yl
-            if f != "conv" and m == 5:
-                return "static", xl, yl
-            if f != "conv" and m == 2:
-                return "literal", xl, yl
-    if f in ("dec", "hex") and i % 3 == 2:
-        return "static", None, None
+            out["static"] = (xl, yl)
+            if f != "conv":
+                out["literal"] = (xl, yl)
+    if f in ("dec", "hex"):
+        out = {"local": (None, None), "static": (None, None)}
+    return out
+
+
+def context(c):
+    """how a case is embedded in the program: operands from memory, as literals in a run-time expression,
+    or as literals in a static initializer (translation-time evaluation).  Both tiers replay every available
+    embedding (c["_mode"] set by expand()); a single recorded case without _mode gets the one selected by its hash."""
+    ms = modes(c)
+    if c.get("_mode") in ms:
+        return (c["_mode"],) + ms[c["_mode"]]
+    f = c["f"]
+    if f in ("dec", "hex"):
+        m = "static" if vsel(c) % 3 == 2 else "local"
+        return (m,) + ms[m]
+    m = vsel(c) % (5 if f == "conv" else 6)
+    if "static" in ms and m == (4 if f == "conv" else 5):
+        return ("static",) + ms["static"]
+    if "literal" in ms and m == 2:
+        return ("literal",) + ms["literal"]
     return "memory", None, None
+
+
+def expand(rows, all_modes):
+    if not all_modes:
+        return rows
+    out = []
+    for c in rows:
+        for m in sorted(modes(c)):
+            d = dict(c)
+            d["_mode"] = m
+            out.append(d)
+    return out
 
 
 def render(i, c):
     f, op, at, bt, rt = c["f"], c["op"], c["at"], c["bt"], c["rt"]
     RT = CT[rt]
     out = []
-    data = list(c["xb"]) + list(c["yb"])
+    data = list(c["xb"]) + list(c["yb"]) + list(c.get("zb", []))
     if data:
         out.append("static unsigned char I%d[] = {%s};" % (i, ",".join(map(str, data))))
     pre, body = [], []
@@ -160,8 +198,10 @@ def render(i, c):
         pre.append("%s x; memcpy(&x, I%d, %d);" % (CT[at], i, len(c["xb"])))
         if c["yb"]:
             pre.append("%s y; memcpy(&y, I%d + %d, %d);" % (CT[bt], i, len(c["xb"]), len(c["yb"])))
-    v = i % 3
-    mode, xl, yl = context(i, c)
+        if c.get("zb"):
+            pre.append("%s z; memcpy(&z, I%d + %d, %d);" % (CT[at], i, len(c["xb"]) + len(c["yb"]), len(c["zb"])))
+    v = vsel(c) % 3
+    mode, xl, yl = context(c)
     if mode != "memory" and f not in ("dec", "hex"):
         pre = []
         if f == "conv":
@@ -170,6 +210,8 @@ def render(i, c):
             e = "-%s" % xl
         elif f == "truth" and op in ("not", "cond"):
             e = "!%s" % xl if op == "not" else "%s ? 1 : 0" % xl
+        elif f in ("d2l", "d2r"):
+            e = "%s %s %s" % (xl, OPS[c["op2"]], yl)
         else:
             e = "%s %s %s" % (xl, OPS[op], yl)
         if mode == "static":
@@ -181,7 +223,7 @@ def render(i, c):
             body.append('printf("W %d %%lu\\n", (unsigned long)(%s));' % (i, e))
     elif f == "conv":
         e = "(%s)x" % RT
-        v = i % 5
+        v = vsel(c) % 5
         if v == 0:
             body.append("%s r = %s;" % (RT, e))
         elif v in (1, 4):
@@ -194,6 +236,9 @@ def render(i, c):
             body.append("%s r = g%d(x);" % (RT, i))
         if rt not in FLT:
             body.append('printf("W %d %%lu\\n", (unsigned long)(%s));' % (i, e))
+    elif f in ("d2l", "d2r"):
+        e = "(x %s y) %s z" % (OPS[op], OPS[c["op2"]]) if f == "d2l" else "z %s (x %s y)" % (OPS[c["op2"]], OPS[op])
+        body.append("%s r = %s;" % (RT, e))
     elif f == "mixed" and op == "cond":
         e = "(I%d[0] | 1) ? x : y" % i
         body.append("%s r = %s;" % (RT, e))
@@ -207,8 +252,8 @@ def render(i, c):
         e = "x %s= y" % OPS[op]
         body.append("%s r = (%s);" % (RT, e) if v == 1 else "%s; %s r = x;" % (e, RT))
     elif f == "neg":
-        e = dict(neg="-x", inc="++x", dec="x--")[op]
-        body.append("%s r = -x;" % RT if op == "neg" else "%s; %s r = x;" % (e, RT))
+        e = dict(neg="-x", inc="++x", dec="x--", postinc="x++", postdec="x--")[op]
+        body.append("%s r = %s;" % (RT, e) if op in ("neg", "postinc", "postdec") else "%s; %s r = x;" % (e, RT))
     elif f == "cmp":
         e = "x %s y" % OPS[op]
         if v == 1:
@@ -323,9 +368,14 @@ def run_batches(ctx, compiler, tree, cases, tag, per=300):
 
 
 def bisect_failed(ctx, compiler, tree, failed, tag, limit=3):
-    res, bad = {}, []
+    """Batches that do not compile/run: halve recursively, name at most `limit` culprits.  Returns the results of
+    the cases that could be judged, the culprits, and the indices left unjudged once the limit was reached."""
+    res, bad, unjudged = {}, [], set()
 
     def rec(batch, depth):
+        if len(bad) >= limit:
+            unjudged.update(i for i, _ in batch)
+            return
         r, f = run_batches(ctx, compiler, tree, batch, "%s-bis%d-%d" % (tag, batch[0][0], depth), per=len(batch))
         if not f:
             res.update(r)
@@ -333,16 +383,12 @@ def bisect_failed(ctx, compiler, tree, failed, tag, limit=3):
         if len(batch) == 1:
             bad.append((batch[0], f[0][1], f[0][2], f[0][3]))
             return
-        if len(bad) >= limit:
-            return
         h = len(batch) // 2
         rec(batch[:h], depth + 1)
         rec(batch[h:], depth + 1)
     for batch, st, rc, out in failed:
-        if len(bad) >= limit:
-            break
         rec(batch, 0)
-    return res, bad
+    return res, bad, unjudged
 
 
 def fval_class(t, b):
@@ -375,7 +421,7 @@ def sig_of(c, exp, got):
         kind = "type"
     else:
         kind = None
-    if context(c["_i"], c)[0] == "static" and f not in ("dec", "hex"):
+    if context(c)[0] == "static" and f not in ("dec", "hex"):
         # translation-time evaluation (eval2 / eval_double); the class names the operand that matters
         ops = [(at, c["xb"])] + ([(bt, c["yb"])] if c["yb"] else [])
         if any(t == "int" and int_of("int", b) < 0 for t, b in ops):
@@ -386,7 +432,8 @@ def sig_of(c, exp, got):
             cls = "ge2^63"
         else:
             cls = "value"
-        return "static-init:%s:%s:%s%s:%s" % (f, op, SHORT[at], "," + SHORT[bt] if bt != "-" else "", kind or cls)
+        return "static-init:%s:%s:%s%s:%s" % (f, op + ("-" + c["op2"] if c.get("op2") else ""), SHORT[at],
+                                               "," + SHORT[bt] if bt != "-" else "", kind or cls)
     if f == "conv":
         if at in FLT:
             cls = fval_class(at, c["xb"])
@@ -394,6 +441,8 @@ def sig_of(c, exp, got):
             v = int_of(at, c["xb"])
             cls = "ge2^63" if v >= 1 << 63 else "neg" if v < 0 else "value"
         return "conv:%s->%s:%s" % (SHORT[at], SHORT[bt], kind or cls)
+    if f in ("d2l", "d2r"):
+        return "%s:%s-%s:%s:%s" % (f, op, c["op2"], SHORT[at], kind or "value")
     if f in ("arith", "neg"):
         cl = {fval_class(at, c["xb"])} | ({fval_class(bt, c["yb"])} if c["yb"] else set())
         return "%s:%s:%s:%s" % (f, op, SHORT[at], kind or ("nan" if "nan" in cl else "value"))
@@ -401,7 +450,7 @@ def sig_of(c, exp, got):
         cl = {fval_class(at, c["xb"])} | ({fval_class(bt, c["yb"])} if c["yb"] else set())
         return "%s:%s:%s:%s" % (f, op, SHORT[at], kind or ("nan" if "nan" in cl else "negzero" if "negzero" in cl else "value"))
     if f in ("dec", "hex"):
-        return "const:%s:%s:%s:%s" % (f, SHORT[rt], "static" if c["_i"] % 3 == 2 else "local", kind or "value")
+        return "const:%s:%s:%s:%s" % (f, SHORT[rt], "static" if context(c)[0] == "static" else "local", kind or "value")
     if f in ("mixed", "opasg"):
         cl = set()
         for t, b in ((at, c["xb"]), (bt, c["yb"])):
@@ -412,7 +461,11 @@ def sig_of(c, exp, got):
 
 
 def case_key(c):
-    return json.dumps([c["f"], c["op"], c["at"], c["bt"], c["i"], c["j"]])
+    return json.dumps([c["f"], c["op"], c.get("op2", ""), c["at"], c["bt"], c["i"], c["j"]])
+
+
+def full_key(c):
+    return case_key(c) + c.get("_mode", "")
 
 
 def nontrivial(c):
@@ -432,10 +485,12 @@ def compare(ctx, tree, cases, tag, first=0, compiler="chibicc"):
         c["_i"] = c.get("_i", first + k)
         idx.append((c["_i"], c))
     res, failed = run_batches(ctx, compiler, tree, idx, tag)
+    unjudged = set()
     if failed:
-        r2, bad = bisect_failed(ctx, compiler, tree, failed, tag)
+        r2, culprits, unjudged = bisect_failed(ctx, compiler, tree, failed, tag)
         res.update(r2)
-        for (i, c), st, rc, out in bad:
+        for (i, c), st, rc, out in culprits:
+            unjudged.add(i)
             g, gf = run_batches(ctx, "gcc", tree, [(i, c)], tag + "-g%d" % i, per=1)
             if gf:
                 ctx.oracle_disagreements += 1
@@ -445,12 +500,12 @@ def compare(ctx, tree, cases, tag, first=0, compiler="chibicc"):
                        case=dict(kind="vector", case=c, index=i, source=PRELUDE + render(i, c)))
     bad = []
     for i, c in idx:
-        ctx.note_case(case_key(c), nontrivial=nontrivial(c))
-        if i not in res:
+        ctx.note_case(full_key(c), nontrivial=nontrivial(c))
+        if i in unjudged:
             continue
         exp = expect(i, c)
-        if not agrees(c, exp, res[i]):
-            bad.append((i, c, exp, res[i]))
+        if not agrees(c, exp, res.get(i)):            # a case whose program ran but printed nothing is a mismatch too
+            bad.append((i, c, exp, res.get(i)))
     if bad and compiler != "gcc":
         gres, gf = run_batches(ctx, "gcc", tree, [(i, c) for i, c, _, _ in bad], tag + "-gcc")
         for i, c, exp, got in bad:
@@ -477,9 +532,11 @@ def run(ctx):
     # registered commands never set it
     jobs = [] if os.environ.get("VERIF_C02_SKIP_MC") else c02_mc.jobs(ctx)
     # the large families are subsampled in the quick tier; conv, neg, the unary truth tests and vararg never are
-    jobs += [gen_job(ctx, ["conv", "neg", "truth", "vararg"], 3 if q else 1, "gen-small"),
-             gen_job(ctx, ["arith", "cmp"], 5 if q else 1, "gen-arith"),
-             gen_job(ctx, ["dec", "hex", "mixed", "opasg"], 5 if q else 1, "gen-const")]
+    gens = [gen_job(ctx, ["conv", "neg", "truth", "vararg"], 3 if q else 1, "gen-small"),
+            gen_job(ctx, ["arith", "cmp"], 5 if q else 1, "gen-arith"),
+            gen_job(ctx, ["dec", "hex", "mixed", "opasg"], 5 if q else 1, "gen-const"),
+            gen_job(ctx, ["d2l", "d2r"], 5 if q else 1, "gen-depth2")]
+    jobs = [j for j in jobs if j["expect"] == "ok"] + gens + [j for j in jobs if j["expect"] == "reject"]
     box = {}
 
     def do(j):
@@ -488,7 +545,8 @@ def run(ctx):
             return None
         return ctx.tlc("float", j["module"], j["cfg"], env=j["env"], workers=min(j["workers"], TLC_WORKERS), heap="4g",
                        timeout=1500, count=False)
-    results = vt.pmap(do, ["build"] + jobs, workers=len(jobs) + 1)[1:]
+    # at most 12 JVMs at a time (the quick tier has 11 jobs); the long jobs are first in the list
+    results = vt.pmap(do, ["build"] + jobs, workers=min(len(jobs) + 1, 12))[1:]
     tree = box["tree"]
     ctx.phase("build + model check + generation (concurrent)")
     rows = []
@@ -502,8 +560,10 @@ def run(ctx):
         else:
             c02_mc.judge(ctx, j, res)
     rows.sort(key=case_key)                       # worker interleaving must not influence case numbers
-    if len(rows) < 2000:
-        raise Infra("generator wrote only %d vectors" % len(rows))
+    nvec = len(rows)
+    rows = expand(rows, True)      # every embedding in both tiers: the replay is cheap, the generation is what costs
+    if nvec < 2000:
+        raise Infra("generator wrote only %d vectors" % nvec)
     if os.environ.get("VERIF_C02_ORACLE") == "gcc":
         # development: the whole domain through the reference compiler; every line printed is a spec bug or a corner to exclude
         res, bad = compare(ctx, tree, rows, "oracle", compiler="gcc")
@@ -528,7 +588,7 @@ def run(ctx):
         fam_counts[r["f"]] = fam_counts.get(r["f"], 0) + 1
     return ctx.finish(
         rule="case = one vector of FloatGen.tla (family, operator, operand types, operand values from the boundary tables) compiled by the tree's chibicc inside a batched program and compared on the printed object bytes, sizeof and (integer results) the widened value; non-trivial = the expected result bytes differ from each operand's bytes; distinct = distinct (family, operator, types, value indices)",
-        exhaustive=not q, extra=dict(vectors=len(rows), by_family=fam_counts))
+        exhaustive=not q, extra=dict(vectors=nvec, embedded_cases=len(rows), by_family=fam_counts))
 
 
 def replay(ctx, path):
@@ -540,5 +600,7 @@ def replay(ctx, path):
         cc["_i"] = c.get("index", 0)
         compare(ctx, tree, [cc], "replay")
     elif c.get("kind") == "tlc":
-        ctx.tlc_expect_ok(c["area"], c["module"], c["cfg"], "replayed model check", env=c.get("env"))
+        cfg = os.path.join(ctx.scratch, "replay.cfg")
+        open(cfg, "w").write(c["cfg_text"])
+        ctx.tlc_expect_ok(c["area"], c["module"], cfg, "replayed model check", workers=4)
     return ctx.finish(rule="replay of one recorded case")
